@@ -180,6 +180,9 @@ func replayOne(path string) (*Violation, error) {
 		}
 	}
 	s, ok := worldSpecs[head.Prop]
+	if head.Prop == "C09" {
+		s, ok = c09Instance(specC09()), true // the twin is per-history state
+	}
 	if !ok {
 		return nil, fmt.Errorf("no replayer for property %q", head.Prop)
 	}
